@@ -21,7 +21,11 @@ def main():
                 shutil.rmtree(d)
             subprocess.check_call(['git', '-C', '/repo', 'worktree', 'prune'])
             shutil.copytree('/repo', d, ignore=shutil.ignore_patterns('bin', '.git', '*.a', 'test', '_build'), symlinks=True)
-            for (path, old, new) in m['edits']:
+            if m.get('revert'):
+                subprocess.check_call(['patch', '-R', '-p1', '-s', '-i', os.path.join(HERE, 'fixes', m['revert'] + '.patch')], cwd=d)
+            if m.get('patch'):
+                subprocess.check_call(['patch', '-p1', '-s', '-i', os.path.join(VERIF, m['patch'])], cwd=d)
+            for (path, old, new) in m.get('edits', []):
                 fp = os.path.join(d, path)
                 s = open(fp).read()
                 if s.count(old) != m.get('count', 1) and s.count(old) < 1:
